@@ -348,7 +348,7 @@ Definition gen_ocode (m : mode) (st : symtab) (dol : Z) (len : Z) (o : ocode) : 
   | OResb n => if n <? 0 then BytesDiag [] else Bytes (zeros n)
   | OAlignb n =>
       if (n <=? 0) || negb (Z.land n (n - 1) =? 0) then BytesDiag []
-      else Bytes (zeros ((n - len mod n) mod n))
+      else Bytes (zeros ((n - (dol + len) mod n) mod n))      (* the address, not the output length (fix 9af2c29) *)
   | OJcc name t =>
       let dest := match t with
                   | JLabel l => lookup l st
